@@ -138,6 +138,9 @@ Definition ic_receiver (c : icase) : res (rkind * view) :=
   match ic_recv c with
   | 0 => Ok (KOwned, parent)
   | 1 => v <- view_of KOwned false parent s0 s1 e0 e1 ;; Ok (KView, v)
+  (* TooDeeView::new / TooDeeViewMut::new over a slice with [s0] spare cells after the array *)
+  | 3 => v <- view_new (N.of_nat (ic_C c)) (N.of_nat (ic_R c)) (ic_C c * ic_R c + N.to_nat s0) ;; Ok (KView, v)
+  | 4 => v <- view_new (N.of_nat (ic_C c)) (N.of_nat (ic_R c)) (ic_C c * ic_R c + N.to_nat s0) ;; Ok (KViewMut, v)
   | _ => v <- view_of KOwned true parent s0 s1 e0 e1 ;; Ok (KViewMut, v)
   end.
 
@@ -158,7 +161,8 @@ Definition iter_model (inp : list N) : list N :=
       | Panic => [0%N]
       | UB => [777771%N]
       | Ok s0 =>
-          let b0 := map N.of_nat (seq 0 (ic_C c * ic_R c)) in
+          let spare := match ic_recv c with 3 | 4 => N.to_nat (fst (fst (fst (ic_win c)))) | _ => 0 end in
+          let b0 := map N.of_nat (seq 0 (ic_C c * ic_R c + spare)) in
           match (r <- icalls (ic_dbg c) (ic_mut c) 0 s0 (ic_calls c) b0 ;;
                  let '(o, s, b) := r in
                  t <- iterm_step s (ic_term c) ;;
